@@ -1,7 +1,7 @@
 (* Builder programs: the public builder calls that construct statements, as step functions on
    the model AST (src/query/select.rs, insert.rs, update.rs, delete.rs, with.rs, on_conflict.rs).
    A statement is `fold_left step clauses new`. *)
-Require Import SQV.Model.Str SQV.Model.Value SQV.Model.Expr SQV.Model.Cond SQV.Model.Stmt.
+Require Import SQV.Model.Str SQV.Model.Value SQV.Model.Expr SQV.Model.Cond SQV.Model.Stmt SQV.Model.Literal.
 
 Definition ucond := cond query.
 (* what IntoCondition accepts: a condition or a plain expression *)
@@ -259,6 +259,9 @@ Definition api_is_null (x : expr query) : expr query := EBinary x BIs (EKeyword 
 Definition api_is_not_null (x : expr query) : expr query := EBinary x BIsNot (EKeyword KwNull).
 Definition api_cast_as (x : expr query) (ty : str) : expr query :=
   EFunc FCast [(false, EBinary x BAs (ECustom ty))].
+(* Func::cast_as_quoted: the type name is prepared as an identifier between the given quote character *)
+Definition api_cast_as_quoted (x : expr query) (ty : str) (q : N) : expr query :=
+  EFunc FCast [(false, EBinary x BAs (ECustom (iden_prepare q ty)))].
 Definition api_in_subquery (x : expr query) (s : select) : expr query :=
   EBinary x BIn (ESubQuery None (QSelect s)).
 Definition api_exists (s : select) : expr query := ESubQuery (Some SqExists) (QSelect s).
